@@ -73,7 +73,7 @@ func init() {
 		x := val.AsInt(a[2])
 		X := crypto.ScalarBaseMult(ec, x)
 		return withStream(func() val.V {
-			pf, err := schnorr.NewZKProof(val.AsBytes(a[1]), x, X, streamFor(d(val.AsInt(a[3]), q)))
+			pf, err := schnorr.NewZKProof(sessBuf(a[1]), x, X, streamFor(d(val.AsInt(a[3]), q)))
 			if err != nil {
 				return val.Err
 			}
@@ -94,7 +94,7 @@ func init() {
 			return val.Err
 		}
 		return withStream(func() val.V {
-			pf, err := schnorr.NewZKVProof(val.AsBytes(a[1]), V, R, s, l, streamFor(d(val.AsInt(a[5]), q), d(val.AsInt(a[6]), q)))
+			pf, err := schnorr.NewZKVProof(sessBuf(a[1]), V, R, s, l, streamFor(d(val.AsInt(a[5]), q), d(val.AsInt(a[6]), q)))
 			if err != nil {
 				return val.Err
 			}
@@ -206,7 +206,7 @@ func init() {
 		q3 := q3of(q)
 		q7 := mul(mul(q3, q3), q)
 		return withStream(func() val.V {
-			pf, err := mta.ProveBobWC(val.AsBytes(a[1]), ec, &paillier.PublicKey{N: N}, NT, val.AsInt(a[4]), val.AsInt(a[5]), val.AsInt(a[6]), val.AsInt(a[7]),
+			pf, err := mta.ProveBobWC(sessBuf(a[1]), ec, &paillier.PublicKey{N: N}, NT, val.AsInt(a[4]), val.AsInt(a[5]), val.AsInt(a[6]), val.AsInt(a[7]),
 				val.AsInt(a[8]), val.AsInt(a[9]), val.AsInt(a[10]), X,
 				streamFor(d(r[0], q3), d(r[1], mul(q, NT)), d(r[2], mul(q, NT)), d(r[3], mul(q3, NT)), d(r[4], mul(q3, NT)), d(r[5], N), d(r[6], q7)))
 			if err != nil {
@@ -227,7 +227,7 @@ func init() {
 		qNC := mul(q, NC)
 		q3NC := mul(q3, NC)
 		return withStream(func() val.V {
-			pf, err := facproof.NewProof(val.AsBytes(a[1]), ec, N0, NC, val.AsInt(a[4]), val.AsInt(a[5]), val.AsInt(a[6]), val.AsInt(a[7]),
+			pf, err := facproof.NewProof(sessBuf(a[1]), ec, N0, NC, val.AsInt(a[4]), val.AsInt(a[5]), val.AsInt(a[6]), val.AsInt(a[7]),
 				streamFor(d(r[0], b1), d(r[1], b1), d(r[2], qNC), d(r[3], qNC), d(r[4], mul(qNC, N0)), d(r[5], mul(q3NC, N0)), d(r[6], q3NC), d(r[7], q3NC)))
 			if err != nil {
 				return val.Err
@@ -239,7 +239,7 @@ func init() {
 	vc.Register("mod_prove", func(a []val.V) val.V {
 		N := val.AsInt(a[1])
 		return withStream(func() val.V {
-			pm, err := modproof.NewProof(val.AsBytes(a[0]), N, val.AsInt(a[2]), val.AsInt(a[3]), streamFor(d(val.AsInt(a[4]), N)))
+			pm, err := modproof.NewProof(sessBuf(a[0]), N, val.AsInt(a[2]), val.AsInt(a[3]), streamFor(d(val.AsInt(a[4]), N)))
 			if err != nil {
 				return val.Err
 			}
@@ -364,7 +364,7 @@ func init() {
 	vc.Register("mta_run", func(a []val.V) val.V {
 		ec := curveByName(val.AsAtom(a[0]))
 		q := ec.Params().N
-		session := val.AsBytes(a[1])
+		session := sessBuf(a[1])
 		k := val.AsInts(a[2])
 		sk := &paillier.PrivateKey{PublicKey: paillier.PublicKey{N: k[0]}, LambdaN: k[1], PhiN: k[2], P: k[3], Q: k[4]}
 		pk := &sk.PublicKey
